@@ -2,8 +2,9 @@
 
 A program is a list of ops over host handles (numbered in creation order):
   ["new"] ["g1",h] ["g2",h1,h2] ["mi",h] ["md",h] ["free",h]
-  ["keep",n,recv] ["ctx",n,recv] ["flush"]
-  ["seq",n,recv]   keep with sequential=True and a post routine that measures (finding witnesses only)
+  ["keep",n,recv(,burst)] ["ctx",n,recv] ["flush"]      burst: all OKs delivered at the first wait poll
+  ["seq",n,recv(,burst)]   keep with sequential=True and a post routine that measures; the n returned
+                           handles are numbered like any others but are dead
 A configuration is (max_q, nv_hw, transp).
 
 Session runs the ops one by one through sdk_pipeline.Pipeline (real Qubit /
@@ -21,8 +22,13 @@ KIND = {"NotAllocated": "NotAllocated", "AlreadyAllocated": "AlreadyAllocated",
 
 
 class Cfg:
-    def __init__(self, max_q, nv_hw, transp):
+    """max_q / nv_hw / transp are the model's configuration.  reserve0 is a choice of the
+    environment (physical layout), invisible to the model: physical qubit 0 is the
+    communication qubit owned by the link layer, local qalloc uses physical qubits 1.. ."""
+
+    def __init__(self, max_q, nv_hw, transp, reserve0=False):
         self.max_q, self.nv_hw, self.transp = max_q, bool(nv_hw), bool(transp)
+        self.reserve0 = bool(reserve0)
 
     @property
     def nv(self):
@@ -33,14 +39,17 @@ class Cfg:
         return self.max_q - 1 if self.nv else self.max_q
 
     def key(self):
-        return (self.max_q, self.nv_hw, self.transp)
+        return (self.max_q, self.nv_hw, self.transp, self.reserve0)
 
     def to_json(self):
-        return dict(max_q=self.max_q, nv_hw=self.nv_hw, transp=self.transp)
+        return dict(max_q=self.max_q, nv_hw=self.nv_hw, transp=self.transp, reserve0=self.reserve0)
 
     @staticmethod
     def from_json(d):
-        return Cfg(d["max_q"], d["nv_hw"], d["transp"])
+        return Cfg(d["max_q"], d["nv_hw"], d["transp"], d.get("reserve0", False))
+
+    def with_layout(self, reserve0):
+        return Cfg(self.max_q, self.nv_hw, self.transp, reserve0)
 
     def coq(self):
         return f"(mkCfg {self.max_q} {str(self.nv_hw).lower()} {str(self.transp).lower()})"
@@ -59,7 +68,7 @@ def all_configs():
 
 
 # ------------------------------------------------------------------ controller event recorder
-def install_recorder(pipe):
+def install_recorder(pipe, reserve0=False):
     """Subclass the live executor so that every access to the unit module is recorded.
     Fault kinds come from the exception classes, never from message text."""
     ex = pipe.executor
@@ -69,6 +78,16 @@ def install_recorder(pipe):
     rec = dict(events=[], fault=None, blocked=[])
 
     class Recording(base):
+        def _get_unused_physical_qubit(self):
+            if not reserve0:
+                return super()._get_unused_physical_qubit()
+            # layout with a link-layer-owned communication qubit: local allocations use 1..
+            p = 1
+            while p in self._used_physical_qubit_addresses:
+                p += 1
+            self._used_physical_qubit_addresses.add(p)
+            return p
+
         def _allocate_physical_qubit(self, subroutine_id, virtual_address, physical_address=None):
             try:
                 r = super()._allocate_physical_qubit(subroutine_id, virtual_address, physical_address)
@@ -139,7 +158,7 @@ class Session:
         self.cfg = cfg
         self.pipe = Pipeline(repo, max_qubits=cfg.max_q, hardware="nv" if cfg.nv_hw else "generic",
                              use_transpiler=cfg.transp)
-        self.rec = install_recorder(self.pipe)
+        self.rec = install_recorder(self.pipe, cfg.reserve0)
         self.sock = self.pipe.epr_socket()
         self.conn = self.pipe.connection(epr_sockets=[self.sock])
         self.handles = []
@@ -164,14 +183,33 @@ class Session:
     def hid(self, h):
         return self.handles[h].qubit_id
 
-    def _responses(self, n, recv):
+    def _responses(self, n, recv, burst=False):
+        """Script the n OKs of one request.  Each is created when the environment delivers it
+        (a callable for the pipeline).  fresh_delivery: it names a physical qubit that is not
+        mapped: physical qubit 0 when that is free and the OK is the first of its poll with
+        nothing held back (so it is handled at once), else a never-used one.  PHI_PLUS: no
+        correction gates.  burst: all n OKs are delivered at the first wait poll (the
+        controller holds back those whose virtual ID is still in use); else one per poll."""
         from netqasm.qlink_compat import BellState, LinkLayerOKTypeK, ReturnType
 
-        for i in range(n):
-            # fresh_delivery: a physical qubit that is not mapped; PHI_PLUS: no corrections
-            self.pipe.responses.append(LinkLayerOKTypeK(ReturnType.OK_K, 0, self.phys, 1 if recv else 0, i, 0, 1,
-                                                        0, 0, BellState.PHI_PLUS))
-            self.phys += 1
+        def make(ex, i, first):
+            if first and 0 not in ex._used_physical_qubit_addresses and not ex._pending_epr_responses:
+                phys = 0
+            else:
+                phys = self.phys
+                self.phys += 1
+            return LinkLayerOKTypeK(ReturnType.OK_K, 0, phys, 1 if recv else 0, i, 0, 1, 0, 0, BellState.PHI_PLUS)
+
+        if burst and n >= 2:
+            def deliver_all(ex):
+                for i in range(n - 1):
+                    ex._handle_epr_response(make(ex, i, i == 0))
+                return make(ex, n - 1, False)
+
+            self.pipe.responses.append(deliver_all)
+        else:
+            for i in range(n):
+                self.pipe.responses.append(lambda ex, i=i: make(ex, i, True))
 
     def apply(self, op):
         assert not self.ended
@@ -200,12 +238,12 @@ class Session:
                 self.handles[op[1]].free()
             elif k == "keep":
                 n, recv = op[1], op[2]
-                self._responses(n, recv)
+                self._responses(n, recv, burst=len(op) > 3 and op[3])
                 qs = self.sock.recv_keep(number=n) if recv else self.sock.create_keep(number=n)
                 self.handles += list(qs)
             elif k == "seq":
                 n, recv = op[1], op[2]
-                self._responses(n, recv)
+                self._responses(n, recv, burst=len(op) > 3 and op[3])
 
                 def post(_builder, q, _pair):
                     q.measure()
@@ -279,7 +317,7 @@ def run_program(repo, cfg, ops):
 def refusal_expected(cfg, s_ids, op):
     """NV, several pairs kept at once: _create_ent_qubits asserts that IDs 0..n-1 are unused
     (documented limitation, the SDK builds nothing).  Not an allocation fault."""
-    return op[0] in ("keep", "ctx") and cfg.nv and op[1] >= 2 and any(v < op[1] for v in s_ids)
+    return op[0] == "keep" and cfg.nv and op[1] >= 2 and any(v < op[1] for v in s_ids)
 
 
 def class_key(cfg, s, op):
@@ -288,10 +326,6 @@ def class_key(cfg, s, op):
         a, b = s.hid(op[1]), s.hid(op[2])
         if a != 0 and b != 0 and 0 not in s.ids():
             return "C09:nv-transpiler-carbon-gate-borrows-unallocated-electron"
-    if op[0] == "ctx" and cfg.nv and op[1] >= 2:
-        return "C09:nv-epr-context-preallocates-pair-ids"
-    if op[0] == "seq":
-        return "C09:sequential-keep-handles-stay-active"
     return None
 
 
@@ -309,14 +343,14 @@ def gen_program(repo, cfg, rng, max_len, want_refusal=False):
         if room >= 1:
             cand.append((("new",), 4.0))
             for n in range(1, min(3, room) + 1):
-                op = ("keep", n, rng.random() < 0.5)
+                op = ("keep", n, rng.random() < 0.5, rng.random() < 0.5)
                 if refusal_expected(cfg, s.ids(), op):
                     if want_refusal:
                         cand.append((op, 0.3))
                 else:
                     cand.append((op, 1.2 / n))
-                if not (cfg.nv and n >= 2):
-                    cand.append((("ctx", n, rng.random() < 0.5), 0.8 / n))
+                cand.append((("ctx", n, rng.random() < 0.5), 0.8 / n))
+            cand.append((("seq", rng.randint(1, 3), rng.random() < 0.5, rng.random() < 0.5), 0.8))
         if live:
             h = rng.choice(live)
             cand += [(("g1", h), 2.0), (("mi", h), 1.5), (("md", h), 3.0), (("free", h), 2.0)]
@@ -342,6 +376,8 @@ def gen_program(repo, cfg, rng, max_len, want_refusal=False):
         elif op[0] == "keep":
             live += list(range(nh, nh + op[1]))
             nh += op[1]
+        elif op[0] == "seq":
+            nh += op[1]          # handles handed out, already consumed by the post routine
         elif op[0] in ("md", "free"):
             live.remove(op[1])
         assert len(s.handles) == nh, (len(s.handles), nh, before)
@@ -364,10 +400,10 @@ def enumerate_programs(cfg, depth):
             nxt.append((["new"], live + [nh], nh + 1))
             nxt.append((["keep", 1, False], live + [nh], nh + 1))
             nxt.append((["ctx", 1, True], live, nh))
+            nxt.append((["seq", 2, True, True], live, nh + 2))
             if room >= 2:
-                nxt.append((["keep", 2, True], live + [nh, nh + 1], nh + 2))
-                if not cfg.nv:
-                    nxt.append((["ctx", 2, False], live, nh))
+                nxt.append((["keep", 2, True, True], live + [nh, nh + 1], nh + 2))   # both OKs at the first poll
+                nxt.append((["ctx", 2, False], live, nh))
         for h in live:
             nxt.append((["mi", h], live, nh))
             nxt.append((["md", h], [x for x in live if x != h], nh))
